@@ -751,6 +751,13 @@ func (iqr *IQR) Sort(sortColumns []string, less func(*Record, *Record) bool, lim
 		if err != nil {
 			return err
 		}
+		if sortColumnValues[i] == nil {
+			// The column does not exist here (e.g. `top x | sort z`): no record has a value for it.
+			sortColumnValues[i] = make([]sutils.CValueEnclosure, iqr.NumberOfRecords())
+			for j := range sortColumnValues[i] {
+				sortColumnValues[i][j] = *backfillCVal
+			}
+		}
 	}
 
 	records := make([]*Record, iqr.NumberOfRecords())
